@@ -157,6 +157,21 @@ func opsOn(k *run.K, t model.Tree) {
 		want := forceTree(t, target)
 		k.Check("force", model.Equal(ft, want) && len(iss) == 0, "ForceCoordinatesType(%v): %s %v", target, model.Diff(ft, want), iss)
 	}
+	// chains: a dimension that was dropped must not come back with its old values
+	for _, t1 := range model.CTypes {
+		for _, t2 := range model.CTypes {
+			if t1 == ct || t2 == t1 {
+				continue
+			}
+			var f geom.Geometry
+			if k.Lib("nopanic", func() { f = g.ForceCoordinatesType(t1).ForceCoordinatesType(t2) }) {
+				continue
+			}
+			ft, iss := treeOf(f)
+			want := forceTree(forceTree(t, t1), t2)
+			k.Check("force", model.Equal(ft, want) && len(iss) == 0, "ForceCoordinatesType(%v) then (%v): %s %v", t1, t2, model.Diff(ft, want), iss)
+		}
+	}
 	var f2 geom.Geometry
 	if !k.Lib("nopanic", func() { f2 = g.Force2D() }) {
 		ft, _ := treeOf(f2)
